@@ -52,6 +52,10 @@ def load_findings(prop):
 def sig_matches(entry_sig, sig):
     """Every key of the entry's signature must be present and equal (lists = alternatives)."""
     for k, v in entry_sig.items():
+        if k.endswith("_has"):                      # membership in a list-valued signature field
+            if v not in (sig.get(k[:-4]) or []):
+                return False
+            continue
         if k not in sig:
             return False
         if isinstance(v, list):
